@@ -623,3 +623,87 @@ _c06_prev4 = harnesses
 
 def harnesses(tier):   # noqa: F811
     return _c06_prev4(tier) + [ShowFactor()]
+
+
+# --------------------------------------------------------------------------------------------------------------
+# The non-default number formats (`to digits`, `to frac`, `to sci` ...) show the value through Number::with_pretty_unit.
+
+class WithPrettyUnit(Harness):
+    name = 'number.with_pretty_unit'
+    props = ('C06', 'C04')
+    entry = 'Number::with_pretty_unit'
+    stubs = ((r'^Number::pretty_unit$', stub_pretty_unit, 'Number::pretty_unit -> arbitrary single display unit'),)
+    loop_bound = 40
+    _concrete = None
+    WORTH = {'bit': Fraction(1), 'byte': Fraction(8), 'kilogram': Fraction(1), 'kg': Fraction(1), 'gram': Fraction(1, 1000), 'meter': Fraction(1), 'second': Fraction(1)}
+
+    def __init__(self):
+        self.describe = ('Number::with_pretty_unit (the value shown by the non-default digit formats) with the display unit one of bit / kilogram / meter '
+                         'to the power 1, 2, 3 or -1: shown value * shown unit = the quantity')
+        self.bounds = ['single display unit; powers 1, 2, 3, -1']
+        self.expect_classes = ['return']
+
+    def build(self, ex, I):
+        v = I.real('v')
+        name = ['bit', 'kilogram', 'meter'][ex.choose(3, 'display unit')]
+        power = [1, 2, 3, -1][ex.choose(4, 'power')]
+        ex.env['pretty_unit'] = dim({name: (True, power)})
+        n = number(rational(v), dim({'whatever': (True, 1)}))
+        return [ref(n), ref(Opaque('Context'))], {'v': v, 'name': name, 'power': power}
+
+    def post(self, ex, ctx, outcome):
+        v, name, power = zreal(ctx['v']), ctx['name'], ctx['power']
+        val, d = number_parts(outcome[1])
+        kind, x = numeric_parts(val)
+        if kind != 'rational':
+            return [('the shown value stays rational', False)]
+        units = [(k, e) for k, (p, e) in d.items() if p is True or simp(p) is True]
+        if len(units) != 1 or units[0][0] not in self.WORTH or not is_conc(simp(units[0][1])):
+            return [('one known display unit with a concrete power (got %s)' % (units,), False)]
+        uname, upow = units[0][0], int(simp(units[0][1]))
+        lhs = zreal(x) * zreal(self.WORTH[uname] ** upow)
+        rhs = v * zreal(self.WORTH[name] ** power)
+        return [('shown value * %s^%d = value * %s^%d' % (uname, upow, name, power), lhs == rhs)]
+
+    def case(self, ctx, vals, label):
+        c = Harness.case(self, ctx, vals, label)
+        c['inputs'].update({'name': ctx['name'], 'power': ctx['power']})
+        return c
+
+    def prefer(self, ctx):
+        return [ctx['v'] == 100, ctx['v'] > 0]
+
+    def native(self, inputs, label):
+        v = Fraction(inputs['v'])
+        src = {'bit': 'byte', 'kilogram': 'kg', 'meter': 'm'}[inputs['name']]
+        p = int(inputs['power'])
+        return [{'mode': 'query', 'text': '%s %s^(%d) -> digits' % (frac_text(v), src, p)}, {'mode': 'query', 'text': '%s %s^(%d)' % (frac_text(v), src, p)}]
+
+    def judge(self, inputs, label, obs):
+        q, plain = obs
+        if q.get('outcome') == 'panic' or q.get('render_panic'):
+            return True, 'panic %s' % (q.get('panic') or q.get('render_panic'))
+        raw = obs_number_json(plain)
+        j = (q.get('json') or {}).get('value') or (q.get('json') or {})
+        ev = j.get('exactValue')
+        unit = j.get('rawUnit') or j.get('rawDimensions') or {}
+        if raw is None or ev is None:
+            return False, 'no exact numeral in %s' % q.get('display')
+        try:
+            x = Fraction(ev)
+        except ValueError:
+            return False, 'numeral %r is not a plain decimal' % ev
+        worth_bits = {'bit': Fraction(1), 'byte': Fraction(8), 'kilogram': Fraction(1), 'gram': Fraction(1, 1000), 'meter': Fraction(1)}
+        tot = x
+        for k, e in unit.items():
+            if k not in worth_bits:
+                return False, 'unit %s not in the read-back table' % k
+            tot *= worth_bits[k] ** int(e)
+        return (tot != raw[0]), '%r reads back as %s (base units), the quantity is %s' % (q.get('display'), tot, raw[0])
+
+
+_c06_prev5 = harnesses
+
+
+def harnesses(tier):   # noqa: F811
+    return _c06_prev5(tier) + [WithPrettyUnit()]
